@@ -15,6 +15,6 @@ to = int(sys.argv[4]) if len(sys.argv) > 4 else 900
 with Scratch("dev-" + h) as sc:
     mod.prepare(sc)
     t = time.time()
-    res, out = kani.run_harnesses(sc, crate, [h], timeout_s=to, target_tag="k")
+    res, out = kani.run_harnesses(sc, crate, [h], timeout_s=to, target_tag="k", extra_args=tuple(sys.argv[5:]))
     print(h, round(time.time() - t), res.get(h))
     open("/tmp/kani_%s.out" % h, "w").write(out)
